@@ -40,7 +40,9 @@ fn parse_args() -> Args {
     while let Some(a) = it.next() {
         if let Some(name) = a.strip_prefix("--") {
             match name {
-                "append-evidence" | "no-shrink" | "verbose" => flags.push(name.to_string()),
+                "append-evidence" | "no-shrink" | "verbose" | "found-line" => {
+                    flags.push(name.to_string())
+                }
                 _ => {
                     let Some(v) = it.next() else { usage() };
                     opts.push((name.to_string(), v));
@@ -297,7 +299,12 @@ fn cmd_check(args: &Args) -> i32 {
             eprintln!("HARNESS-ERROR replay of {path} did not reproduce the violation");
             return 2;
         }
-        println!("VIOLATION property={} replay={}", prop.id(), path);
+        if args.flag("found-line") {
+            // the wrapper confirms the replay in a fresh process before it prints VIOLATION
+            println!("FOUND property={} replay={}", prop.id(), path);
+        } else {
+            println!("VIOLATION property={} replay={}", prop.id(), path);
+        }
         exit = 1;
         break;
     }
